@@ -109,6 +109,8 @@ func libCallsIn(b *ssa.BasicBlock) map[string]bool {
 var writerClass = map[string][]string{
 	"newBool": {"bool"}, "newInt": {"int"}, "newUint": {"uint"}, "newFloat": {"float"}, "normalizeString": {"string"}, "newString": {"string"},
 	"normalizeArray": {"array"}, "normalizeMapValue": {"map"}, "normalizeStructValue": {"struct"}, "tryTConfig": nil, "cpy": nil, "invoke cpy": nil,
+	// the helpers one level down (normalize{Map,Struct}Value folded into normalizeValue)
+	"normalizeMap": {"map"}, "normalizeStruct": {"struct"}, "SetContext": nil,
 }
 var readerClass = map[string][]string{
 	"reifyBool": {"bool", "string"}, "reifyInt": {"int", "uint", "string"}, "reifyUint": {"int", "uint", "string"}, "reifyFloat": {"float", "int", "uint", "string"}, "invoke toString": {"string", "bool", "int", "uint", "float"},
@@ -739,7 +741,9 @@ func specialTypesRule(c *Ctx, r *Report) {
 			}
 		}
 		for _, w := range wcases {
-			r.Check(falseOf[w.ifi], "R06b", c.FnName(NV), "special before kind "+w.g, c.Pos(w.pos), "the kind switch is entered only after the type was compared with "+w.g+" and differed",
+			// dominated by the false edge, or (after a join) not reachable from the true edge at all
+			okPrec := falseOf[w.ifi] || !reachableFromEdge(w.ifi.Block(), w.ifi.Block().Succs[0], wd.Head, nil)
+			r.Check(okPrec, "R06b", c.FnName(NV), "special before kind "+w.g, c.Pos(w.pos), "the kind switch is entered only after the type was compared with "+w.g+" and differed",
 				"a value of type "+w.g+" can reach the kind switch and be written as a plain number / struct")
 		}
 	}
